@@ -125,13 +125,16 @@ def make_cfgs(rng, n, months_choices=(12, 13, 24)):
         cfgs.append(cfg)
     # call history across managers: some ordinary runs are preceded, in the same process, by the design of a
     # sibling project that differs in exactly one physical input
-    twins = ["grout_k", "pipe_k", "grout_rho_cp", "grout_k", "soil_k", "fluid"]
+    twins = ["grout_k", "shank", "pipe_k", "grout_rho_cp", "grout_k", "shank", "soil_k", "fluid"]
     n_tw = 0
     for i, cfg in enumerate(cfgs):
         forced = (i // len(GEOMS) + i % len(GEOMS)) % 4
         if forced == 0 or (forced == 3 and i % 3 != 0):        # the ordinary (not forced) searches
             cfg["twin_first"] = twins[n_tw % len(twins)]
             n_tw += 1
+    for i, cfg in enumerate(cfgs):
+        if i % 5 == 2:
+            cfg["late_reconfig"] = True      # set_simulation_parameters for the NEXT scenario before prepare_results of this one
     # history: every third configuration is followed, ON THE SAME MANAGER, by a second project that
     # re-applies only the loads and the geometry (simulation parameters, borehole, pipe, media are
     # left as they are) and calls set_design / find_design again; the same final configuration is
@@ -275,7 +278,7 @@ def resimulate(cfg, coords, height, at_returned_height: bool, base_height=None):
     # mirror the manager: pipe built through the same setter arithmetic
     m = ghelib.build_manager({**cfg, "phys": phys, "nominal_height": phys["borehole"][0]})
     fluid, pipe, grout, soil, borehole, bhe_type = m._fluid, m._pipe, m._grout, m._soil, m._borehole, m.pipe_type
-    fluid = ghelib.media(phys)[0]       # the fluid the user asked for (name, concentration, design temperature), not the manager's copy
+    fluid = ghelib.independent_fluid(phys)       # the fluid the user asked for (name, concentration, design temperature), not the manager's copy nor the package's class
     sim = SimulationParameters(1, cfg["months"], cfg["max_eft"], cfg["min_eft"], cfg["max_h"], cfg["min_h"])
     n = len(coords)
     v = cfg["flow"]
@@ -340,6 +343,10 @@ def run_design(cfg):
                 if hasattr(s, "calculated_heights"):
                     out["zd_heights"] = {str(k): float(v) for k, v in s.calculated_heights.items()}
                     out["zd_selected_keys"] = {str(k): int(v) for k, v in getattr(s, "selected_keys_nested", {}).items()}
+                if cfg.get("late_reconfig"):
+                    # the user moves on to the next scenario before asking for the results of this one
+                    m.set_simulation_parameters(cfg["months"] + 12, cfg["max_eft"] - 4.0, cfg["min_eft"] + 3.0, cfg["max_h"] + 65.0, cfg["min_h"] + 40.0, None, False)
+                    out["late_reconfig"] = True
                 try:
                     m.prepare_results("p", "n", "a", "i")
                 except Exception as e:  # noqa: BLE001  (e.g. horizons that are not whole years: months[i - 1] IndexError)
@@ -356,6 +363,7 @@ def run_design(cfg):
                     "bore_rows_match": [list(map(float, r)) for r in m.results.borehole_location_data_rows[1:]] == coords,
                     "log": [[str(r[0]), float(r[1]), float(r[2]), float(r[3])] for r in od["design_selection_search_log"]["data"]],
                     "flow_per_bh": od["ghe_system"].get("fluid_mass_flow_rate_per_borehole", {}).get("value"),
+                    "sim_params": {k: (v["value"] if isinstance(v, dict) else v) for k, v in od.get("simulation_parameters", {}).items()},
                   }
         out["evals"] = rec.evals
         out["roots"] = rec.roots
@@ -438,7 +446,7 @@ def search_stage_excess(cfg, coords, h):
     phys["borehole"] = (h, phys["borehole"][1], phys["borehole"][2])
     m = ghelib.build_manager({**cfg, "phys": phys, "nominal_height": h})
     fluid, pipe, grout, soil, borehole, bhe_type = m._fluid, m._pipe, m._grout, m._soil, m._borehole, m.pipe_type
-    fluid = ghelib.media(phys)[0]
+    fluid = ghelib.independent_fluid(phys)
     sim = SimulationParameters(1, cfg["months"], cfg["max_eft"], cfg["min_eft"], cfg["max_h"], cfg["min_h"])
     n = len(coords)
     v = cfg["flow"]
@@ -466,6 +474,10 @@ def twin_cfg(cfg):
         ph["fluid"] = ("Water", 0.0) if ph["fluid"][0] != "Water" else ("PropyleneGlycol", 30.0)
     elif what == "grout_rho_cp":
         ph["grout"] = (ph["grout"][0], round(ph["grout"][1] * 0.55, 0))
+    elif what == "shank":
+        # another shank spacing that still fits the borehole (U-tubes only; coaxial has none)
+        r_b = ph["borehole"][2] / 2.0
+        ph["shank"] = round(max(0.004, min(0.045, 2.0 * (r_b - 0.04216) - 0.006)), 5) if ph.get("shank", 0.01856) < 0.03 else 0.01856
     else:
         raise ValueError(what)
     return {k: v for k, v in {**cfg, "phys": ph}.items() if k not in ("followed_by", "follows", "twin_first")}
